@@ -403,6 +403,16 @@ def run(ctx, escalated=False):
         cases.append(roundtrip_case(ctx, ctx.rng.random() < 0.25))
     for _ in range(n_st):
         cases.append(status_case(ctx, ctx.rng.random() < 0.15))
+    import condsim
+    import shutil
+    for k in range(40 if quick else 1000):
+        r = condsim.run(ctx, ctx.rng, k)
+        if r is None:
+            continue
+        cases.append(Case({"kind": "conductor", "spec": r["spec"], "polls": r["polls"]}, [], [],
+                          r["mon"]["C12"][:3], r["nontrivial"]))
+        if k % 30 == 29:
+            shutil.rmtree(os.path.join(ctx.scratch, "cond"), ignore_errors=True)
     for c in cases:
         ctx.count("kind:" + c.data["kind"])
         for o in c.impl_out:
